@@ -740,14 +740,21 @@ func (o *FilterOptimizer) unionRange(l, r *ScanType) *ScanType {
 		nstart = rstart
 		nend = rend
 	} else if !inRange(lstart, lend, rstart, false) && !inRange(lstart, lend, rend, true) {
-		if inRange(lstart, rstart, lend, true) {
-			// | LS | LE | RS | RE |
+		// | LS | LE | RS | RE |
+		// | RS | RE | LS | LE |
+		// Disjoint ranges: scan the range that covers both,
+		// a nil (unbounded) start or end stays unbounded
+		if lstart != nil && rstart != nil {
 			nstart = lstart
-			nend = rend
-		} else if inRange(rstart, lstart, rend, true) {
-			// | RS | RE | LS | LE |
-			nstart = rstart
+			if bytes.Compare(rstart, lstart) < 0 {
+				nstart = rstart
+			}
+		}
+		if lend != nil && rend != nil {
 			nend = lend
+			if bytes.Compare(rend, lend) > 0 {
+				nend = rend
+			}
 		}
 	}
 
